@@ -99,6 +99,10 @@ def matrix(draw, n_min=2, n_max=24, p_min=1, p_max=16, degenerate=True, family=N
             j = draw(st.integers(0, p - 1))
             X[:, j] = draw(st.sampled_from([1., -2., .5]))
             flags.append("const-col")
+        elif d == 3 and fam == "structured" and n >= 3:
+            # contrast / sum-to-zero coding: every column sums to exactly zero (dyadic entries, so exactly in floats)
+            X[-1, :] = -X[:-1, :].sum(axis=0)
+            flags.append("zero-sum-cols")
     if scales and draw(st.integers(0, 4)) == 0:
         ex = draw(st.lists(st.integers(-3, 3), min_size=p, max_size=p))
         X = X * (10. ** np.array(ex, float))[None, :]
